@@ -228,6 +228,9 @@ func c08(c *ctx) {
 		{"action", gram.Seq(gram.Lit("u"), gram.Act()), gram.Lit("a")},
 		{"capture", gram.Un(gram.KCapture, gram.Lit("u")), gram.Lit("a")},
 		{"captureaction", gram.Seq(gram.Un(gram.KCapture, gram.Lit("u")), gram.Act()), gram.Lit("a")},
+		{"action-while-the-used-rule-captures", gram.Seq(gram.Lit("u"), gram.Act()), gram.Un(gram.KCapture, gram.Rng('a', 'c'))},
+		{"capture-while-the-used-rule-acts", gram.Un(gram.KCapture, gram.Lit("u")), gram.Seq(gram.Lit("a"), gram.Act())},
+		{"dot-while-the-used-rule-has-notdot", gram.Seq(gram.Lit("u"), gram.Dot()), gram.Seq(gram.Lit("a"), gram.Un(gram.KNot, gram.Lit("b")))},
 		{"string", gram.Lit("uvw"), gram.Lit("a")},
 		{"cistring", gram.LitCI("uvw"), gram.Lit("a")},
 		{"char", gram.Lit("u"), gram.Rng('a', 'c')},
